@@ -40,7 +40,7 @@ pub fn prop() -> Prop {
         stub: &["transport", "store", "glue", "random source", "Byzantine dealer / peer"],
         independent: &["harness algebra"],
         ref_sample: |_| 0,
-        required_probes: &["refresh_dealer", "refresh_dkg", "refresh_twice", "participant_removed", "mix_old_new_failed", "removed_participant_failed", "reject_threshold_dealer", "reject_threshold_dkg", "reject_unknown_dealer", "reject_unknown_dkg", "reject_nonzero_dealer", "reject_nonzero_dkg", "signed_after_refresh", "keys_from_dkg"],
+        required_probes: &["refresh_dealer", "refresh_dkg", "refresh_twice", "participant_removed", "mix_old_new_failed", "removed_participant_failed", "reject_threshold_dealer", "reject_threshold_dkg", "reject_unknown_dealer", "reject_unknown_dkg", "reject_nonzero_dealer", "reject_nonzero_dkg", "signed_after_refresh", "keys_from_dkg", "refresh_after_enrolment"],
         prepare: None,
     }
 }
@@ -74,6 +74,18 @@ fn gen_c<C: Suite>(seed: u64, run: u64, tier: Tier) -> Scenario {
     let dkg = p.chance(1, 4) && n <= if slow { 3 } else { 5 };
     s.phases.push(vec![if dkg { Inst::Dkg } else { Inst::DealerKeygen { split_key: p.chance(1, 2) } }]);
     let mut members: Vec<usize> = (0..n as usize).collect();
+    // sometimes a participant with a NEW identifier is enrolled by share repair first and then takes part in a dealer refresh
+    let enrol = !dkg && !slow && (n as usize) > t as usize && p.chance(1, 6);
+    if enrol {
+        s.spares = 1;
+        let spare_id = gen_ids::<C>(&mut p, if s.id_scheme == "default" { "sparse" } else { &s.id_scheme }, n as usize + 6).into_iter().find(|h| !s.ids_hex.contains(h)).unwrap();
+        s.ids_hex.push(spare_id);
+        let hk = p.range(t as u64, n as u64) as usize;
+        let mut helpers: Vec<usize> = p.subset(n as usize, hk);
+        p.shuffle(&mut helpers);
+        s.phases.push(vec![Inst::Repair { target: n as usize, helpers }]);
+        members.push(n as usize);
+    }
     let refreshes = if slow { 1 } else { p.range(1, 3) };
     for _ in 0..refreshes {
         // remaining set: all, or drop some while keeping |R| >= t
@@ -85,7 +97,9 @@ fn gen_c<C: Suite>(seed: u64, run: u64, tier: Tier) -> Scenario {
         if p.chance(1, 2) {
             r.sort();
         }
-        let use_dkg = p.chance(1, 2) && r.len() >= 2 && (r.len() <= if slow { 3 } else { 6 });
+        // (the glue announces an enrolled participant's verifying share to the coordinator only, so enrolment is followed
+        // by trusted-dealer refreshes)
+        let use_dkg = !enrol && p.chance(1, 2) && r.len() >= 2 && (r.len() <= if slow { 3 } else { 6 });
         s.phases.push(vec![if use_dkg { Inst::RefreshDkg { remaining: r.clone() } } else { Inst::RefreshDealer { remaining: r.clone() } }]);
         members = r.clone();
         members.sort();
@@ -158,6 +172,18 @@ fn exec_c<C: Suite>(scen: &Scenario) -> Exec {
     let Some(mut cur_pk) = cur_pk else { return Exec::Harness("no original pk".into()) };
     if cur.len() != n {
         return Exec::Harness("missing original key packages".into());
+    }
+    // a participant enrolled by share repair joins the group before the first refresh
+    for r in &sim.history {
+        if let Record::Repaired { node, kp, .. } = r {
+            if *node >= n {
+                let mut vs = cur_pk.verifying_shares().clone();
+                vs.insert(*kp.identifier(), *kp.verifying_share());
+                cur_pk = PublicKeyPackage::<C>::new(vs, *cur_pk.verifying_key(), cur_pk.min_signers());
+                cur.insert(*node, kp.clone());
+                rep.probe("refresh_after_enrolment");
+            }
+        }
     }
     let group_key = *cur_pk.verifying_key();
     if matches!(scen.phases[0][0], Inst::Dkg) {
